@@ -276,6 +276,9 @@ func readState(path string) (resolver.TrustAnchors, string) {
 		return nil, "unreadable"
 	}
 	defer f.Close()
+	if fi, err := f.Stat(); err == nil && fi.Mode().IsRegular() && fi.Size() == 0 {
+		return nil, "zero"
+	}
 	t := make(resolver.TrustAnchors)
 	if err := gob.NewDecoder(f).Decode(&t); err != nil {
 		return nil, "corrupt"
@@ -292,6 +295,9 @@ func readTomb(path string) (resolver.Tombstones, string) {
 		return nil, "unreadable"
 	}
 	defer f.Close()
+	if fi, err := f.Stat(); err == nil && fi.Mode().IsRegular() && fi.Size() == 0 {
+		return nil, "zero"
+	}
 	t := make(resolver.Tombstones)
 	if err := gob.NewDecoder(f).Decode(&t); err != nil {
 		return nil, "corrupt"
@@ -661,19 +667,33 @@ func exec(op string) vlib.Res {
 		S.r = nil
 		return vlib.Res{Impl: S.obs(), Oracle: "ok"}
 	case "damage":
-		switch f[2] {
+		// tomb|state: garbage; *-trunc: the existing gob stream cut in the middle
+		// (garbage when there is none); *-empty: truncated to zero length
+		what, kind, _ := strings.Cut(f[2], "-")
+		var path string
+		switch what {
 		case "tomb":
-			if err := os.WriteFile(S.tombPath(), []byte("\x07not a gob stream"), 0o600); err != nil {
-				panic(err)
-			}
-			S.orc.tombDamaged = true
+			path = S.tombPath()
 		case "state":
-			if err := os.WriteFile(S.statePath(), []byte("\x07not a gob stream"), 0o600); err != nil {
-				panic(err)
-			}
+			path = S.statePath()
 			S.orc.stateBad = true
 		default:
 			return vlib.Res{Impl: "bad-op"}
+		}
+		data := []byte("\x07not a gob stream")
+		switch kind {
+		case "":
+		case "trunc":
+			if old, err := os.ReadFile(path); err == nil && len(old) > 8 {
+				data = old[:len(old)/2]
+			}
+		case "empty":
+			data = nil
+		default:
+			return vlib.Res{Impl: "bad-op"}
+		}
+		if err := os.WriteFile(path, data, 0o600); err != nil {
+			panic(err)
 		}
 		return vlib.Res{Impl: S.obs(), Oracle: "ok"}
 	case "killrun":
